@@ -98,6 +98,8 @@ def gen(rng, tier):
             yield {"lines": ["fdx %d %s" % (D, hexs(t))], "noshrink": True,
                    "expect_fdx": {"accept": accept, "val": a["dump"], "D": D, "nest": a["nest"]}}
         for flags in (0, 1):
+            if flags == 1 and accept and not a["fits"]:
+                continue            # strict mode rejects an integer beyond 64 bits (C01), whatever the depth
             ex = dict(base); ex["lines"] = [(1, len(t))]
             yield {"lines": ["new %d %d" % (D, flags), "pz " + hexs(t)], "keep": 2, "noshrink": True, "expect": ex}
         if len(t) <= 120:
